@@ -71,9 +71,26 @@ static int run_tri(Rng& rng) {
                 for (int flavour = 0; flavour < 3; flavour++) {
                     if (n == 64 && flavour != 0 && !thorough()) continue;
                     TriSys s = random_tri(rng, n, cyc, flavour);
-                    Tri t(n);
-                    fill(t, s);
                     std::vector<double> x = s.b, t1(n), t2(n);
+                    // provenance of the object that holds the system: filled directly, or received through a special member
+                    // function from an object that has (or has not) already solved; the receiving object may itself hold
+                    // the factorisation of ANOTHER system (the property speaks about the system the object holds)
+                    int prov = rng.range(0, 7);
+                    Tri t(n);
+                    if (prov <= 1) fill(t, s);
+                    else {
+                        Tri src(n); fill(src, s);
+                        bool solved_before = prov % 2 == 0;
+                        if (solved_before) { std::vector<double> y = s.b; src.solveInPlace(y.data(), t1.data(), t2.data()); }
+                        int m = rng.coin() ? n : rng.range(2, 9);
+                        TriSys o = random_tri(rng, m, cyc, 0);
+                        Tri other(m); fill(other, o);
+                        if (rng.coin()) { std::vector<double> y = o.b, u1(m), u2(m); other.solveInPlace(y.data(), u1.data(), u2.data()); }
+                        if (prov == 2 || prov == 3) { other = src; t = other; }
+                        else if (prov == 4 || prov == 5) { other = std::move(src); t = std::move(other); }
+                        else { std::vector<Tri> v; v.push_back(other); v.push_back(src); v.erase(v.begin()); Tri c(v[0]); t = std::move(c); }
+                    }
+                    std::printf("# prov=%d\n", prov);
                     t.solveInPlace(x.data(), t1.data(), t2.data());
                     std::printf("TS %d %d %d |", cyc, n, s.wellcond ? 1 : 0); pv(s.main);
                     std::printf(" |"); pv(s.sub);
